@@ -1,8 +1,8 @@
 SPECIFICATION Spec
 CONSTANTS
-  MaxUnits = 2
-  MaxPrefixes = 1
+  MaxUnits = 3
+  MaxPrefixes = 2
   MaxLen = 4
-  KindMode = "all"
+  KindMode = "parity"
 INVARIANTS Theorems Emit
 CHECK_DEADLOCK FALSE
